@@ -34,7 +34,16 @@ pub fn drive(t: &mut Tracer, r: &mut Rng, n: usize) {
                     if out["kind"] == "ok" { if let Some(v) = out["val"].as_i64() { if v.abs() < 400 * 86_400 { cur = v; } } } }
                 3..=6 => { let other = if r.chance(1, 3) { cur + r.range(-90_000, 90_000) } else { near(r) };
                     let op = if r.chance(1, 2) { "Zoned.until" } else { "Zoned.since" };
-                    t.call(op, json!({"zone": zone, "t": cur, "other": other, "st": {"largest": *r.pick(&lgs)}})); }
+                    // a third of the differences carry rounding options (smallest unit, increment, mode)
+                    if r.chance(1, 3) {
+                        let sm = *r.pick(&["month", "week", "day", "hour", "minute", "second"][..]);
+                        let lg_c: Vec<&str> = ["year", "month", "week", "day", "hour", "minute", "second"].iter().cloned().filter(|l| unit_rank(l) >= unit_rank(sm)).collect();
+                        let mut lg = *r.pick(&lg_c[..]);
+                        let inc = match sm { "hour" => *r.pick(&[1i64, 1, 2, 3, 6, 12][..]), "minute" | "second" => *r.pick(&[1i64, 1, 5, 15, 30][..]), _ => if r.chance(1, 4) { lg = sm; r.range(2, 4) } else { 1 } };
+                        let mut st = json!({"largest": lg, "smallest": sm, "inc": inc, "mode": *r.pick(&MODES[..])});
+                        if r.chance(1, 5) { st.as_object_mut().unwrap().remove("largest"); }
+                        t.call(op, json!({"zone": zone, "t": cur, "other": other, "st": st}));
+                    } else { t.call(op, json!({"zone": zone, "t": cur, "other": other, "st": {"largest": *r.pick(&lgs)}})); } }
                 7 => { if r.chance(1, 2) { t.call("Zoned.startOfDay", json!({"zone": zone, "t": cur})); }
                        else { let sod = if r.chance(1, 3) { *r.pick(&[0i64, 1800, 3600, 7200, 9000, 10800, 86_399][..]) } else { r.range(0, 86_399) };
                               t.call("Zoned.withPlainTime", json!({"zone": zone, "t": cur, "sod": sod})); } }
